@@ -40,7 +40,21 @@ def make_part(score, rng, pid="P1", divs=None, n_measures=None, voices=2, staves
         if m == 0 and pickup:
             length = rng.randint(1, max(1, cur_bl - 1))
         # (no signature change directly after a pickup: the bar the pickup belongs to would be ill-defined)
-        if ts_change and m == n_measures // 2 and m > 0 and not (pickup and m == 1):
+        if ts_change == "multi":
+            # several changes between two signatures, so that the piece returns to an earlier one (A B A ...)
+            if m == 0:
+                cur_ts = (beats, beat_type)
+                pool = [cur_ts]
+                for _ in range(20):
+                    b2, bt2 = rng.choice(TS)
+                    if bar_len(divs, b2, bt2) and (b2, bt2) != cur_ts:
+                        pool.append((b2, bt2))
+                        break
+            elif len(pool) > 1 and not (pickup and m == 1) and rng.random() < 0.6:
+                cur_ts = pool[1] if cur_ts == pool[0] else pool[0]
+                part.add(score.TimeSignature(*cur_ts), t)
+                cur_bl = length = bar_len(divs, *cur_ts)
+        elif ts_change and m == n_measures // 2 and m > 0 and not (pickup and m == 1):
             for _ in range(20):
                 b2, bt2 = rng.choice(TS)
                 l2 = bar_len(divs, b2, bt2)
